@@ -87,8 +87,9 @@ Section Kinds.
     destruct kk; try discriminate.
     destruct cs as [|opn [|l [|r [|? ?]]]]; try discriminate.
     destruct (is_pat_target l); [discriminate|].
-    destruct (binary_transform c _ (o_p s1)) as [[b|] p1]; [|discriminate].
-    inversion E; subst. unfold mk_assign, mk, is_kind. simpl. neutral_neq.
+    destruct (hoist_target c l (lo, hi) acc0 (o_p s1)) as [[lhs' hoisted] p0].
+    destruct (binary_transform c _ p0) as [[b|] p1]; [|discriminate].
+    inversion E; subst. destruct (a_assigns hoisted); unfold mk_assign, mk_paren, mk, is_kind; simpl; neutral_neq.
   Qed.
 
   Lemma tpl_step_neutral n1 s1 : is_kind k (fst (tpl_step c n1 s1)) = is_kind k n1 \/
